@@ -38,9 +38,25 @@ RP_NOTFOUND = 'placement.resource_provider.not_found'
 DUP_NAME = 'placement.duplicate_name'
 
 
+LATEST = (1, 39)
+
+
 def ver(s):
+    if s is None:
+        return (1, 0)
+    if s == 'latest':
+        return LATEST
     a, b = s.split('.')
     return (int(a), int(b))
+
+
+def canon_uuid(u):
+    """The canonical (dashed, lower-case) spelling of a uuid."""
+    import uuid
+    try:
+        return str(uuid.UUID(u))
+    except (ValueError, AttributeError, TypeError):
+        return u
 
 
 def capacity(inv):
@@ -254,6 +270,8 @@ class Model(object):
 
     def rp_create(self, v, b):
         u = b.get('uuid')
+        if u is not None:
+            u = canon_uuid(u)
         name = b['name']
         parent = b.get('parent_provider_uuid')
         if u is not None and u in self.providers:
@@ -747,6 +765,7 @@ class Model(object):
         return must, may - must, cons_must
 
     def alloc_put(self, v, c, b):
+        c = canon_uuid(c)
         entries = self._entries_from(v, {c: b})
         bad = self._check_entries(v, entries)
         if bad is not None:
